@@ -205,6 +205,9 @@ def gen_nest(rng, count, tag, panic=0.02, combs=None, local=False):
     for c in range(count):
         comb = rng.choice(combs or (NESTS_FUT + NESTS_STR))
         n = rng.randint(2, 6)
+        cont = "nest"
+        if rng.random() < 0.3:       # the array impls of the crate: outer [_; 2] over inner [_; n/2] (the same slice algorithms: the same model)
+            n = rng.choice([2, 4, 4, 6]); cont = "nesta"
         if comb in NESTS_FUT:
             scs = [fscript(rng, n, i, False, panic) for i in range(n)]
         else:
@@ -213,7 +216,7 @@ def gen_nest(rng, count, tag, panic=0.02, combs=None, local=False):
             scs = [_local_fires(sc, i, n // 2) for i, sc in enumerate(scs)]
         scs = ";".join(scs)
         ops = ops_executor(rng, n) if rng.random() < 0.5 else ops_adversarial(rng, n)
-        out.append(f"{tag}{c} {comb} nest n={n} {scs} | {' '.join(ops)}")
+        out.append(f"{tag}{c} {comb} {cont} n={n} {scs} | {' '.join(ops)}")
     return out
 
 
